@@ -15,6 +15,7 @@
 #include <cstddef>
 #include <cstdint>
 #include <mutex>
+#include <thread>
 
 namespace pika::detail {
 
@@ -228,7 +229,9 @@ namespace pika::detail {
         // Callback has either already executed or is executing concurrently
         // on another thread.
         PIKA_VERIF_POINT("stop.rm_check", cb, 0, 0);
-        if (signalling_thread_ == pika::threads::detail::get_self_id())
+        if (signalling_thread_ == pika::threads::detail::get_self_id() &&
+            (signalling_thread_ != pika::threads::detail::invalid_thread_id ||
+                signalling_os_thread_ == std::this_thread::get_id()))
         {
             // Callback executed on this thread or is still currently executing
             // and is unregistering itself from within the callback.
@@ -282,6 +285,7 @@ namespace pika::detail {
         PIKA_ASSERT(stop_requested(state_.load(std::memory_order_acquire)));
 
         signalling_thread_ = pika::threads::detail::get_self_id();
+        signalling_os_thread_ = std::this_thread::get_id();
 
         // invoke registered callbacks
         while (callbacks_ != nullptr)
